@@ -183,12 +183,18 @@ func (d *Decoder) DecodeInteger() (uint64, error) {
 	return d.decodeUintFromReader()
 }
 
-// C.6 Deserialization
+// C.6 Deserialization of a length prefix (number of items of a sequence or
+// dictionary, number of octets of a blob). Every item occupies at least one
+// octet of input, so a length larger than the unread input is malformed. It is
+// rejected here, before any caller sizes an allocation with it.
 func (d *Decoder) DecodeLength() (uint64, error) {
 	cLog(Yellow, "Reading length flag")
 	length, err := d.decodeUintFromReader()
 	if err != nil {
 		return 0, err
+	}
+	if length > uint64(d.buf.Len()) {
+		return 0, fmt.Errorf("length prefix %d exceeds the %d remaining bytes", length, d.buf.Len())
 	}
 	cLog(Yellow, "Slice Length: %v", length)
 	return length, nil
